@@ -46,3 +46,7 @@ pub struct CsptpState {
     /// Whether the current frequency is traceable.
     pub frequency_traceable: bool,
 }
+
+#[cfg(all(test, feature = "pendulum_project_ntpd_rs_verif"))]
+#[path = "../../../verif/harness/statime_csptp/root.rs"]
+mod verif_root;
